@@ -4,6 +4,7 @@ package main
 
 import (
 	"fmt"
+	"hash/fnv"
 	"go/types"
 	"strings"
 )
@@ -145,7 +146,10 @@ func sortOf1(t types.Type) *Sort {
 		if n, ok := t.(*types.Named); ok {
 			name = "S_" + shortName(n)
 		} else {
-			name = fmt.Sprintf("S_anon%d", len(sortCache))
+			// anonymous struct types are identical when their field lists are: name them by structure
+			h := fnv.New32a()
+			h.Write([]byte(types.TypeString(t, nil)))
+			name = fmt.Sprintf("S_anon_%08x", h.Sum32())
 		}
 		if sortInProgress[name] {
 			return UninterpSort("U_rec_" + name)
